@@ -558,8 +558,12 @@ func e2eStream(r *lib.Run) {
 		for _, p := range pkgPool {
 			for _, nm := range namePool[:2+rng.Intn(2)] {
 				t := genTarget(rng, p, nm)
-				ts = append(ts, t)
 				lts = append(lts, labellib.Target{Pkg: t.Pkg, Name: t.Name, Test: t.Test, Labels: t.Labels})
+				if t.Test {
+					// the BUILD parser labels every binary target (a gentest is one) with "bin"
+					t.Labels = append(append([]string{}, t.Labels...), "bin")
+				}
+				ts = append(ts, t)
 			}
 		}
 		root := filepath.Join(r.Scratch(), fmt.Sprintf("e2e-%d", i), "repo")
@@ -647,6 +651,7 @@ func TestC36(t *testing.T) {
 		"reference from docs/commands.html (-i/-e) and the statement: all-of inside a comma group, any-of across include groups, exclusion wins, exclude build patterns by whole path components, trailing * on the argument matches target labels by prefix, tests carry `test`",
 		"not asserted: a trailing-* argument that is a prefix of `test` against the implicit test label",
 		"e2e build: generated targets are independent genrules/gentests, so output file present <=> target selected",
+		"e2e: the BUILD parser adds the label `bin` to binary targets (every gentest); the reference's label set includes it",
 	}
 	walls := map[string]float64{}
 	for _, st := range []struct {
